@@ -1171,6 +1171,11 @@ class RTCSctpTransport(AsyncIOEventEmitter):
         # find stream
         inbound_stream = self._get_inbound_stream(chunk.stream_id)
 
+        # a peer which moved the cumulative TSN back and forth (FORWARD TSN)
+        # can get the same TSN past the duplicate detection above
+        if any(x.tsn == chunk.tsn for x in inbound_stream.reassembly):
+            return
+
         # defragment data
         inbound_stream.add_chunk(chunk)
         self._advertised_rwnd -= len(chunk.user_data)
